@@ -39,7 +39,7 @@ FLOORS = {
 TIMEOUT_S = {"quick": 1200, "thorough": 5400}
 
 N_CASES = {"quick": 96, "thorough": 1000}
-FAMILY_CYCLE = ["mixed", "builtin", "probe", "discrete", "mixed", "probe", "builtin", "discrete"]
+FAMILY_CYCLE = ["mixed", "builtin", "probe", "discrete", "bare", "probe", "builtin", "bare-discrete"]
 
 
 def plan(tier, seed):
@@ -178,7 +178,7 @@ def run_case(case, ctx):
                 ctx.violation(gfi.raise_key("vmap-keys(simulate)", r), {**d0, **r.brief()})
 
     # ------------------------------------------------------------------ exact law
-    if case["family"] == "discrete" and spec.all_discrete(prog):
+    if case["family"] in ("discrete", "bare-discrete") and spec.all_discrete(prog):
         r = ctx.call(_check_law, ctx, sim_jit, prog, g, base)
         if hasattr(r, "brief"):
             ctx.violation(gfi.raise_key("simulate-law", r), {**base, **r.brief()})
